@@ -2,7 +2,7 @@
 import re
 INT_RE = re.compile(r'^-?\d+$')
 from .. import chains, callgraph, xorrules, taint
-from ..vflow import Canon, strip_int_casts, strip_ptr_casts, derived_pointers
+from ..vflow import Canon, strip_int_casts, strip_ptr_casts, derived_pointers, access_path, fields_in_path
 from ..guards import Facts, dominating_edges, edge_condition
 from ..cfg import reaches_without, natural_loops
 from ..retval import returns_via_edge
@@ -21,6 +21,67 @@ EXPLANATION = (
     "from the excluded indexes in general.")
 
 PLANNER_BACKENDS = ('@backend_flat_xor_hd', '@backend_liberasurecode_rs_vand', '@backend_isa_l_rs_vand')
+
+def rule_rs_planner_values(ctx, P, r, backends):
+    """R06m: the Reed-Solomon style planners (first k indexes that are neither requested nor excluded) decided as value functions:
+    constant propagation through the planner's IR for a (3,2) shape and every pair of short lists - overlapping, duplicated,
+    empty - against the specification: success with the first k available indexes in ascending order and a -1 terminator when at
+    least k fragments remain, a negative value otherwise.  No library code runs."""
+    from ..consteval import ConstEval, Undecidable
+    import itertools
+    cg = callgraph.get(P)
+    seen = set()
+    K, M = 3, 2
+    N = K + M
+    lists = [()] + [(a,) for a in range(N)] + [(a, b) for a in range(N) for b in range(N)] + [(0, 1, 0), (4, 4, 1)]
+    for be in backends:
+        c = cg.common[be]
+        f = P.fn(cg.op_tables[c['ops']]['fragments_needed'])
+        if f.name in seen:
+            continue
+        seen.add(f.name)
+        st = [i.gep_base_ty for i in f.insts() if i.op == 'getelementptr' and (i.gep_base_ty or '').startswith('%struct.')]
+        if not st:
+            raise AnalysisBroken(f'anchor vanished: {f.name} does not read its descriptor')
+        cname = st[0][len('%struct.'):]
+        ik, im = P.field_index(cname, 'k'), P.field_index(cname, 'm')
+        CE = ConstEval(P, f.mod)
+        bad, nev = None, 0
+        try:
+            for R in lists:
+                if not R:
+                    continue
+                for X in lists:
+                    objs = {'desc': {(ik,): K, (im,): M},
+                            'R': {(n_,): v for n_, v in enumerate(R + (-1,))}, 'X': {(n_,): v for n_, v in enumerate(X + (-1,))},
+                            'N': {(n_,): -99 for n_ in range(N + 1)}}
+                    def hook(ins, args, objs=objs):
+                        g_ = P.fns.get(ins.callee)
+                        if g_ is not None and g_.order:
+                            return ConstEval(P, g_.mod).run(g_, args, objs=objs, call_hook=hook)['ret']
+                        return None
+                    res = CE.run(f, [('obj', 'desc', ()), ('obj', 'R', ()), ('obj', 'X', ()), ('obj', 'N', ())], objs=objs, call_hook=hook)
+                    nev += 1
+                    avail = [i for i in range(N) if i not in R and i not in X]
+                    out = [res['objects']['N'].get((n_,)) for n_ in range(N + 1)]
+                    if len(avail) >= K:
+                        want = avail[:K] + [-1]
+                        if res['ret'] != 0 or out[:K + 1] != want:
+                            bad = f'k={K}, m={M}, to reconstruct {list(R)}, to exclude {list(X)}: returns {res["ret"]} with list {out[:K + 1]}, expected 0 with {want}'
+                    elif res['ret'] is None or res['ret'] >= 0:
+                        bad = f'k={K}, m={M}, to reconstruct {list(R)}, to exclude {list(X)}: only {len(avail)} fragments remain but the planner returns {res["ret"]}'
+                    if bad:
+                        break
+                if bad:
+                    break
+        except Undecidable as e:
+            r.undecided(f'{f.name}: planner value function', loc=f.mod.src, msg=str(e))
+            continue
+        inst = f'{f.name}: first k available indexes, ascending, -1 terminated; error iff fewer than k remain'
+        if bad:
+            r.fail(inst, func=f.name, sig='planner value: ' + bad[:70], loc=f.mod.src, msg='the planner does not compute the specified answer: ' + bad)
+        else:
+            r.ok(inst + f' ({nev} list pairs incl. overlapping / duplicated entries)', func=f.name, loc=f.mod.src)
 
 def rule_planners(ctx, P, rc, rd, backends):
     cg = callgraph.get(P)
@@ -430,6 +491,51 @@ def run(ctx):
                             r.fail(inst, func=fn.name, sig=f'{call.callee[1:]} also returns {sorted(neg - {int(cst[0])})}', loc=tt.loc,
                                    msg=f'{fn.name} recognises the failure of {call.callee[1:]} by "== {cst[0]}" but the helper also returns {sorted(neg - {int(cst[0])})}: '
                                        'that failure is not recognised and the fall-back is skipped')
+    r.require_min(1)
+
+    # ---------------- R06m RS-style planners as value functions
+    r = ctx.rule('R06m', 'Reed-Solomon planners: the answer is the first k indexes that are neither requested nor excluded; an error iff fewer than k remain',
+                 'a count of list entries instead of distinct indexes refuses satisfiable requests with overlapping lists; a wrong scan names unusable fragments')
+    rule_rs_planner_values(ctx, P, r, ('@backend_liberasurecode_rs_vand', '@backend_isa_l_rs_vand', '@backend_isa_l_rs_cauchy'))
+    r.require_min(2)
+
+    # ---------------- R06k a shortcut that takes a parity equation as it is must find no excluded member in it
+    r = ctx.rule('R06k', 'XOR planner: an equation is taken whole on the strength of a count of excluded data members only when that count is 0',
+                 'with one excluded member accepted the answer names the excluded fragment (and the rest does not span the target)')
+    from ..guards import upper_bound_at as _ub, Facts as _Facts
+    xfn = P.fn('xor_hd_fragments_needed')
+    excl = xfn.params[2][1]
+    nk = 0
+    for c in [i for i in xfn.insts() if i.op == 'call' and i.callee == '@num_missing_data_in_parity' and i.res]:
+        ld = xfn.defs.get(strip_ptr_casts(xfn, c.ops[2]))
+        if ld is None or ld.op != 'call' or ld.callee != '@get_missing_data' or strip_ptr_casts(xfn, ld.ops[1]) != excl:
+            continue
+        LA, _ = derived_pointers(xfn, [ld.res])
+        if any(i.op == 'store' and i.ops[1] in LA for i in xfn.insts()):
+            continue                                  # the list is extended (e.g. by the target itself): not a pure exclusion count
+        tables = {q.res for q in xfn.insts() if q.op == 'load' and fields_in_path(access_path(P, xfn, q.ops[0])[1])[-1:] == [('xor_code_s', 'parity_bms')]}
+        for q in xfn.insts():
+            if q.op != 'load':
+                continue
+            gq = xfn.defs.get(strip_ptr_casts(xfn, q.ops[0]))
+            if gq is None or gq.op != 'getelementptr' or strip_ptr_casts(xfn, gq.ops[0]) not in tables:
+                continue
+            users = [u for u in xfn.insts() if u.op == 'or' and q.res in [strip_int_casts(xfn, o) for o in u.ops]]
+            for u in users:
+                F_ = _Facts(P, xfn, u.bb)
+                if not any(c.res in [strip_int_casts(xfn, o) for o in raw.ops] for raw, _t in F_.raw):
+                    continue
+                nk += 1
+                ub = _ub(P, xfn, c.res, u.bb)
+                inst = f'xor_hd_fragments_needed: equation taken at line {u.line} under a count of excluded members (line {c.line})'
+                if ub is not None and ub <= 0:
+                    r.ok(inst + ': only when the count is 0', func=xfn.name, loc=u.loc)
+                else:
+                    r.fail(inst, func=xfn.name, sig=f'equation accepted with up to {ub} excluded member(s)', loc=u.loc,
+                           msg=f'the parity equation is added to the answer although up to {ub if ub is not None else "any number of"} of its data members may be on the exclude list: '
+                               'the answer then names an excluded fragment')
+    if not nk:
+        r.ok('no shortcut accepts an equation on a count of excluded members', func=xfn.name, loc=xfn.mod.src, trivial=True)
     r.require_min(1)
 
     r = ctx.rule('R06f', 'bitmaps built from index lists are consumed only through single-bit tests',
